@@ -1,8 +1,22 @@
-// Family binary "misc": C45 C46 C47 C48 C49.
+// Family binary "misc": C45 C49 C46 C47 C48.
 package main
 
-import "github.com/thanos-io/thanos/verifharness/hlib"
+import (
+	"os"
+	"runtime/pprof"
+
+	"github.com/thanos-io/thanos/verifharness/hlib"
+)
 
 var props []*hlib.Prop
 
-func main() { hlib.Main(props) }
+func main() {
+	// VERIF_PROF=<file>: CPU profile of the harness run (development aid)
+	if p := os.Getenv("VERIF_PROF"); p != "" {
+		if f, err := os.Create(p); err == nil {
+			_ = pprof.StartCPUProfile(f)
+			defer pprof.StopCPUProfile()
+		}
+	}
+	hlib.Main(props)
+}
